@@ -1,0 +1,329 @@
+// Package document 已打开文档的样式部件：保留原文，只把需要的样式定义拼接进去
+package document
+
+import (
+	"bytes"
+	"encoding/xml"
+	"sort"
+
+	"github.com/zerx-lab/wordZero/pkg/style"
+)
+
+const wordprocessingMLNamespace = "http://schemas.openxmlformats.org/wordprocessingml/2006/main"
+
+// openedStyles 记录文档打开时的样式状态。打开的文档的 styles.xml 含有本库无法表示的内容
+// （docDefaults、latentStyles、未知的样式子元素），不能用样式管理器重新生成；保存时与这里的
+// 记录比较，只把打开之后新建/修改的样式和正文新引用的样式写进原有部件。创建后不再修改。
+type openedStyles struct {
+	registry map[string]string // 样式ID -> 打开时该样式序列化后的形式
+	refs     map[string]bool   // 打开时正文已经引用的样式ID
+}
+
+// snapshotOpenedStyles 在文档打开完成时记录样式管理器和正文样式引用的状态
+func (d *Document) snapshotOpenedStyles() {
+	d.stylesAtOpen = &openedStyles{
+		registry: marshalledStyles(d.styleManager),
+		refs:     d.referencedStyleIDs(),
+	}
+}
+
+// marshalledStyles 返回样式管理器中每个样式序列化后的形式，用于判断样式是否被修改过
+func marshalledStyles(sm *style.StyleManager) map[string]string {
+	out := make(map[string]string)
+	for _, st := range sm.GetAllStyles() {
+		if data, err := xml.Marshal(st); err == nil {
+			out[st.StyleID] = string(data)
+		}
+	}
+	return out
+}
+
+// referencedStyleIDs 收集正文（含内容控件、表格单元格和嵌套表格）引用的段落样式和表格样式ID
+func (d *Document) referencedStyleIDs() map[string]bool {
+	ids := make(map[string]bool)
+	if d.Body == nil {
+		return ids
+	}
+	visitParagraph := func(p *Paragraph) {
+		if p.Properties != nil && p.Properties.ParagraphStyle != nil && p.Properties.ParagraphStyle.Val != "" {
+			ids[p.Properties.ParagraphStyle.Val] = true
+		}
+	}
+	var visitTable func(t *Table)
+	visitTable = func(t *Table) {
+		if t.Properties != nil && t.Properties.TableStyle != nil && t.Properties.TableStyle.Val != "" {
+			ids[t.Properties.TableStyle.Val] = true
+		}
+		for r := range t.Rows {
+			for c := range t.Rows[r].Cells {
+				cell := &t.Rows[r].Cells[c]
+				for i := range cell.Paragraphs {
+					visitParagraph(&cell.Paragraphs[i])
+				}
+				for i := range cell.Tables {
+					visitTable(&cell.Tables[i])
+				}
+			}
+		}
+	}
+	var visit func(element interface{})
+	visit = func(element interface{}) {
+		switch e := element.(type) {
+		case *Paragraph:
+			if e != nil {
+				visitParagraph(e)
+			}
+		case *Table:
+			if e != nil {
+				visitTable(e)
+			}
+		case *SDT:
+			if e != nil && e.Content != nil {
+				for _, child := range e.Content.Elements {
+					visit(child)
+				}
+			}
+		}
+	}
+	for _, element := range d.Body.Elements {
+		visit(element)
+	}
+	return ids
+}
+
+// extendOpenedStyles 处理从已有文件打开的文档的 styles.xml：没有需要补充的内容时原样保留；
+// 否则在原文中替换/追加样式定义，其余字节不变。需要写入的样式有两类：
+//  1. 打开之后通过样式管理器新建或修改的样式（ID在原部件中已有定义时替换该定义）；
+//  2. 打开之后正文新引用（标题、目录、表格样式等）、样式管理器中有、而原部件没有定义的样式。
+//
+// 打开时正文就已经引用的ID不属于第2类：原文件怎样定义（或没有定义）它们，就保持怎样。
+func (d *Document) extendOpenedStyles(existing []byte) []byte {
+	current := marshalledStyles(d.styleManager)
+	changed := make(map[string]bool)
+	for id, form := range current {
+		if before, ok := d.stylesAtOpen.registry[id]; !ok || before != form {
+			changed[id] = true
+		}
+	}
+	var newRefs []string
+	for id := range d.referencedStyleIDs() {
+		if !d.stylesAtOpen.refs[id] {
+			newRefs = append(newRefs, id)
+		}
+	}
+	if len(changed) == 0 && len(newRefs) == 0 {
+		return existing
+	}
+
+	layout, ok := scanStylesPart(existing)
+	if !ok {
+		// 无法可靠定位样式定义（不是 w:styles、不是UTF-8等）：保持原样
+		return existing
+	}
+
+	// 新应用的表格样式（ApplyTableStyle / CreateCustomTableStyle）在样式管理器中还没有对应的样式
+	known := make(map[string]bool, len(layout.defined)+len(d.stylesAtOpen.refs))
+	for id := range layout.defined {
+		known[id] = true
+	}
+	for id := range d.stylesAtOpen.refs {
+		known[id] = true
+	}
+	for _, id := range d.defineReferencedTableStyles(known) {
+		changed[id] = true
+	}
+
+	write := make(map[string]*style.Style)
+	for id := range changed {
+		if st := d.styleManager.GetStyle(id); st != nil {
+			write[id] = st
+		}
+	}
+	for _, id := range newRefs {
+		st := d.styleManager.GetStyle(id)
+		if st == nil || changed[id] || layout.defined[id] {
+			continue
+		}
+		// 原部件可能已有该类型的默认样式，补充的定义只需要让引用有效，不应成为第二个默认样式
+		copied := *st
+		copied.Default = false
+		write[id] = &copied
+	}
+	if len(write) == 0 {
+		return existing
+	}
+	return layout.splice(existing, write)
+}
+
+// stylesPartLayout 是 styles.xml 原文中各个样式定义和根元素结束位置的字节偏移
+type stylesPartLayout struct {
+	defined    map[string]bool
+	elements   []styleElementRange // 按出现顺序
+	rootStart  int                 // 根元素开始标签的起始偏移
+	rootEnd    int                 // 根元素结束标签的起始偏移（自闭合时为开始标签之后）
+	selfClosed bool                // 根元素写成 <w:styles .../>
+	bindsW     bool                // 根元素把前缀 w 绑定到 WordprocessingML 命名空间
+}
+
+type styleElementRange struct {
+	id         string
+	start, end int
+}
+
+// scanStylesPart 用带命名空间解析的XML解码器定位根元素 styles 的直接子元素 style，
+// 不依赖文件使用的前缀（其他生成器可能写 ns0:styles 或使用默认命名空间）
+func scanStylesPart(data []byte) (*stylesPartLayout, bool) {
+	layout := &stylesPartLayout{defined: make(map[string]bool), rootStart: -1, rootEnd: -1}
+	decoder := xml.NewDecoder(bytes.NewReader(data))
+	depth := 0
+	open := -1 // 当前 style 元素在 elements 中的下标
+	for {
+		before := int(decoder.InputOffset())
+		token, err := decoder.Token()
+		if err != nil {
+			break
+		}
+		after := int(decoder.InputOffset())
+		switch t := token.(type) {
+		case xml.StartElement:
+			depth++
+			switch {
+			case depth == 1:
+				if t.Name.Local != "styles" || t.Name.Space != wordprocessingMLNamespace {
+					return nil, false
+				}
+				layout.rootStart = before
+				for _, attr := range t.Attr {
+					if attr.Name.Space == "xmlns" && attr.Name.Local == "w" && attr.Value == wordprocessingMLNamespace {
+						layout.bindsW = true
+					}
+				}
+			case depth == 2 && t.Name.Local == "style" && t.Name.Space == wordprocessingMLNamespace:
+				id := ""
+				for _, attr := range t.Attr {
+					if attr.Name.Local == "styleId" {
+						id = attr.Value
+					}
+				}
+				layout.elements = append(layout.elements, styleElementRange{id: id, start: before, end: -1})
+				open = len(layout.elements) - 1
+			}
+		case xml.EndElement:
+			switch depth {
+			case 2:
+				if open >= 0 {
+					layout.elements[open].end = after
+					layout.defined[layout.elements[open].id] = true
+					open = -1
+				}
+			case 1:
+				layout.rootEnd = before
+				layout.selfClosed = before == after
+			}
+			depth--
+		}
+		if depth == 0 && layout.rootEnd >= 0 {
+			break
+		}
+	}
+	if layout.rootStart < 0 || layout.rootEnd < 0 || open >= 0 {
+		return nil, false
+	}
+	if layout.selfClosed && (layout.rootEnd < 2 || string(data[layout.rootEnd-2:layout.rootEnd]) != "/>") {
+		return nil, false
+	}
+	return layout, true
+}
+
+// splice 返回新的部件内容：write 中ID已有定义的样式替换原定义，其余追加在根元素结束标签之前
+func (l *stylesPartLayout) splice(data []byte, write map[string]*style.Style) []byte {
+	const indent = "  "
+	encoded := make(map[string][]byte, len(write))
+	ids := make([]string, 0, len(write))
+	for id := range write {
+		ids = append(ids, id)
+	}
+	sort.Strings(ids) // 固定顺序：重复保存得到相同的字节
+	for _, id := range ids {
+		form, err := xml.MarshalIndent(write[id], indent, indent)
+		if err != nil {
+			continue
+		}
+		form = bytes.TrimPrefix(form, []byte(indent))
+		// 序列化结果固定使用前缀 w；文件的根元素没有声明这个前缀时在元素自身上声明
+		if !l.bindsW && bytes.HasPrefix(form, []byte("<w:style")) {
+			form = append([]byte(`<w:style xmlns:w="`+wordprocessingMLNamespace+`"`), form[len("<w:style"):]...)
+		}
+		// 以写入文件后读回的ID为准（序列化会替换XML不允许的字符），这样下次保存时能认出这个定义
+		encoded[writtenStyleID(form, id)] = form
+	}
+
+	var out bytes.Buffer
+	pos := 0
+	replaced := make(map[string]bool)
+	for _, el := range l.elements {
+		form, ok := encoded[el.id]
+		if !ok {
+			continue
+		}
+		out.Write(data[pos:el.start])
+		out.Write(form)
+		pos = el.end
+		replaced[el.id] = true
+	}
+
+	var added []string
+	for id := range encoded {
+		if !replaced[id] {
+			added = append(added, id)
+		}
+	}
+	sort.Strings(added)
+	if len(added) == 0 {
+		out.Write(data[pos:])
+		return out.Bytes()
+	}
+
+	if l.selfClosed {
+		// <w:styles .../> 改写为 <w:styles ...> 新增的样式 </w:styles>
+		out.Write(data[pos : l.rootEnd-2])
+		out.WriteString(">\n")
+	} else {
+		out.Write(data[pos:l.rootEnd])
+	}
+	for _, id := range added {
+		out.WriteString(indent)
+		out.Write(encoded[id])
+		out.WriteString("\n")
+	}
+	if l.selfClosed {
+		name := data[l.rootStart+1:]
+		if n := bytes.IndexAny(name, " \t\r\n/>"); n >= 0 {
+			name = name[:n]
+		}
+		out.WriteString("</")
+		out.Write(name)
+		out.WriteString(">")
+	}
+	out.Write(data[l.rootEnd:])
+	return out.Bytes()
+}
+
+// writtenStyleID 返回序列化后的样式定义中实际写出的 styleId；无法读取时返回 fallback
+func writtenStyleID(form []byte, fallback string) string {
+	decoder := xml.NewDecoder(bytes.NewReader(form))
+	for {
+		token, err := decoder.Token()
+		if err != nil {
+			return fallback
+		}
+		if start, ok := token.(xml.StartElement); ok {
+			for _, attr := range start.Attr {
+				if attr.Name.Local == "styleId" {
+					return attr.Value
+				}
+			}
+			return fallback
+		}
+	}
+}
